@@ -145,6 +145,16 @@ func gen(tier string) []proto.Item {
 				items = append(items, proto.Item{Scn: s, Class: fmt.Sprintf("%s/destination-answers-with-ip-options-%dw", v, w)})
 			}
 		}
+		if proto.Info(v).Kind == "sack" {
+			// SACK: the destination answers the probes with a time-exceeded from its own address instead of a selective
+			// acknowledgement (the variant's second way of seeing the destination): the TTLs still to come are not probed
+			s := proto.Scn{Variant: v, First: 1, Last: 12, Dest: 3, IPIDBase: 1000, EchoBase: 50, TimeoutMs: 300, DelayMs: 10}
+			s.Hops = map[int]proto.HopSpec{}
+			for t := 3; t <= 12; t++ {
+				s.Hops[t] = proto.HopSpec{AtTarget: true, Form: "te28"}
+			}
+			items = append(items, proto.Item{Scn: s, Class: fmt.Sprintf("%s/destination-answers-with-time-exceeded", v)})
+		}
 		if k := proto.Info(v).Kind; k == "udp4" || k == "udp6" {
 			// the UDP destination rejects the probes with host / administratively-prohibited unreachable (a host firewall): it
 			// has answered all the same, the TTLs still to come are not probed
